@@ -84,8 +84,8 @@ def r1(ctx):
             detail["discharged_by"] = d[0] + ": " + d[1][:160]
             ctx.ok(rule, s.key, detail)
             continue
-        if s.key in table:
-            ent = table[s.key]
+        ent = TT.table_entry(table, s)
+        if ent is not None:
             reason = ent if isinstance(ent, str) else ent["reason"]
             missing = [] if isinstance(ent, str) else [r for r in ent.get("requires", []) if not has_call(P, s.body, r)]
             if not missing:
@@ -98,7 +98,7 @@ def r1(ctx):
             detail["reviewed_reason_no_longer_holds"] = {"reason": reason, "missing_facts": missing}
         stats["open"] = stats.get("open", 0) + 1
         ctx.fail(rule, s.key, "%s is reachable from the front-end entry points without a dominating test: malformed input can panic instead "
-                              "of producing an error" % s.kind, s.loc, detail)
+                              "of producing an error" % s.kind, s.loc, detail, alt_keys=[s.okey])
     ctx.analysed["C14.R1"] = {"entries": len(ents), "reachable_bodies": len(T.reach), "sinks": n, "discharge": stats}
     ctx.floor(rule, len(T.reach), "C14.R1.reachable")
     ctx.floor(rule, n, "C14.R1.sinks")
